@@ -165,6 +165,16 @@ def inputs(rng, n):
     ro = rng.randn(rows, n)
     ro.setflags(write=False)
     out["read-only"] = ro
+    zc = rng.randn(rows, n)
+    zc[:, int(rng.randint(n))] = 0.0            # a one-hot level never seen: a column made of zeros only
+    out["zero-column"] = zc
+    zc2 = rng.randn(rows, n)
+    zc2[:, 0] = 0.0
+    out["first-column-zero"] = zc2
+    if n <= 3:
+        # row counts around the sizes at which an implementation would start working in blocks
+        for big in (4097, 5000):
+            out["rows-%d" % big] = rng.randn(big, n)
     return out
 
 
@@ -281,6 +291,7 @@ def run_case(case, ctx):
     from sklearn.preprocessing import PolynomialFeatures
     import mlinsights.mlmodel.extended_features as ef
     from mlinsights.mlmodel import ExtendedFeatures
+    from vrt.poison import Poison, tainted
     n, d, io, bias = case["n"], case["d"], case["io"], case["bias"]
     cfg = {"n_features": n, "degree": d, "interaction_only": io, "include_bias": bias}
     rng = numpy.random.RandomState(1000 * n + 10 * d + 2 * io + bias + 7919 * case.get("seed", 0))
@@ -331,12 +342,21 @@ def run_case(case, ctx):
             m = ExtendedFeatures(kind=kind, poly_degree=d, poly_interaction_only=io, poly_include_bias=bias)
             keep = X.copy()
             try:
-                got = m.fit(X).transform(X)
+                # under the poisoned allocator: every cell of the result must have been written
+                with Poison(["mlinsights.mlmodel.extended_features",
+                             "mlinsights.mlmodel._extended_features_polynomial"]) as pz:
+                    got = m.fit(X).transform(X)
+                ctx.extra["poisoned_buffers"] = ctx.extra.get("poisoned_buffers", 0) + pz.allocations
             except Exception as e:
                 ctx.violation("C11/%s/raised/%s" % (kind, type(e).__name__),
                               "%s: %s on input class %s" % (type(e).__name__, e, cname), cfg=cfg)
                 continue
             ctx.hit("numeric." + kind)
+            if tainted(got):
+                ctx.violation("C11/%s/reads-uninitialised-memory" % kind, "the result still holds the sentinel the "
+                              "poisoned numpy.empty put there: %d cells were never written (input class %s)" % (
+                                  int((numpy.abs(numpy.asarray(got, dtype=float)) >= 1e70).sum()), cname), cfg=cfg)
+                continue
             ctx.cls("input=" + cname)
             exp = PolynomialFeatures(degree=d, interaction_only=io, include_bias=bias).fit_transform(
                 X.astype(numpy.float64))
